@@ -571,6 +571,10 @@ CORPUS += [   # `<dir>/*` + re-inclusion of a sub-directory / a file: the `*` co
     dict(tree={b"p": "d", b"p/v": "d", b"p/v/a": "f", b"p/v/k": "d", b"p/v/k/c": "f", b"p/v/k/d": "d", b"p/v/k/d/e": "f"},
          ignores={b"p": [b"v/*"], b"p/v": [b"!k/"]}, ci=False),
 ]
+CORPUS += [   # a lone `!` (empty pattern) matches nothing; it used to re-include everything
+    dict(tree={b"a": "f", b"d": "d", b"d/b": "f", b"c": "f"}, ignores={b"": [b"a", b"d/", b"!"]}, ci=False),
+    dict(tree={b"a": "f", b"d": "d", b"d/b": "f"}, ignores={b"": [b"a", b"/", b"!/", b"! "]}, ci=False),
+]
 KNOWN_CORPUS = [
     dict(tree={b"a": "d", b"a/c": "f", b"abc": "f", b"a-c": "f"}, ignores={b"": [b"a[!b]c"]}, ci=False),          # class vs '/'
     dict(tree={b"a": "f", b"b": "f", b"{a,b}": "f"}, ignores={b"": [b"{a,b}"]}, ci=False),                       # D12
